@@ -363,6 +363,44 @@ def r6(ctx):
             ctx.check(ok, "wire-flags@%s" % short(bd.path.split(" as ")[0].lstrip("<")), "state bits folded into the flag octet: %s" % (expr_str(e[0])[:80] if e else None), bd.where(line=bd.line))
 
 
+def r7(ctx):
+    """The flag octet put on the wire for a stateful point carries the point's VALUE in its state bit(s) on every path: the state
+    bit is forced both ways (set for true, cleared for false) from `self.value`, never left as whatever the stored flags say."""
+    prog = ctx.prog
+    n = 0
+    for ty, bits in (("BinaryInput", 1), ("BinaryOutputStatus", 1), ("DoubleBitBinaryInput", 2)):
+        m = [b for b in prog.bodies.values() if re.search(r"WireFlags for dnp3::app::measurement::%s>::get_wire_flags$" % ty, b.path)]
+        if len(m) != 1:
+            raise AnchorError("WireFlags::get_wire_flags for %s (%d)" % (ty, len(m)))
+        bd = m[0]
+        sym = ctx.sym(bd)
+        own_value = lambda x: mentions(x, lambda s_: s_ == ("field", ("param", "self"), "value"))
+        for b, si, st, e in ret_sites(bd, sym):
+            n += 1
+            setters = [x for x in expr_walk(e) if x[0] == "call" and (x[1] or "").endswith("Flags::with_bits_set_to")]
+            ok = len(setters) >= bits and all(own_value(x[2][2]) for x in setters) and mentions_field(e, "flags")
+            ctx.check(ok, "wire-flags:%s" % ty, "%s::get_wire_flags = %s" % (ty, expr_str(e)[:100]), bd.where(b.idx), bad_detail="%s::get_wire_flags returns `%s` on this path: the state bit is not forced from self.value (a false value with a stale STATE bit in its flags goes out as true)" % (ty, expr_str(e)[:100]))
+        ctx.check(not ctx.gi(bd).by_switch, "wire-flags:%s:unconditional" % ty, "%s::get_wire_flags has no branch" % ty, bd.where(line=bd.line), bad_detail="%s::get_wire_flags branches: with_bits_set_to(bit, value) already sets AND clears" % ty)
+    sb = prog.body("app::measurement::Flags::with_bits_set_to")
+    ss = ctx.sym(sb)
+    truthy = [(b, e) for b, _, _, e in ret_sites(sb, ss)]
+    gb = lambda t: g_bool(lambda x: x in (("param", "value"),), t)
+    oks = 0
+    for b, e in truthy:
+        gs = ctx.guards_at(sb, b.idx)
+        if mentions_call(e, r"Flags::with_bits_set$") and any(gb(True)(g) for g in gs):
+            oks += 1
+        if mentions_call(e, r"Flags::with_bits_cleared$") and any(gb(False)(g) for g in gs):
+            oks += 1
+    ctx.check(oks == 2 and len(truthy) == 2, "with_bits_set_to:sets-and-clears", "with_bits_set_to sets the mask for true and clears it for false", sb.where(line=sb.line))
+    for fn_, op in (("with_bits_set", "BitOr"), ("with_bits_cleared", "BitAnd")):
+        fb = prog.body("app::measurement::Flags::" + fn_)
+        t_ = " ".join(expr_str(e) for _, _, _, e in ret_sites(fb, ctx.sym(fb)))
+        ctx.check(op in t_ and "mask" in t_ and (fn_ != "with_bits_cleared" or "Not" in t_), "Flags::%s" % fn_, "%s = %s" % (fn_, t_[:80]), fb.where(line=fb.line))
+    if n < 3:
+        raise AnchorError("wire flag returns: %d" % n)
+
+
 RULES = [
     ("C10.R1", "T10", "census of narrowing casts: range-guarded or listed truncation", r1),
     ("C10.R2", "T2", "saturating analog conversions return MIN/MAX with OVER_RANGE", r2),
@@ -370,4 +408,5 @@ RULES = [
     ("C10.R4", "T2", "relative time cast guarded by sync, order and 16-bit range tests", r4),
     ("C10.R5", "T8/T4", "CTO applied on the master; CTO kind namesake on both sides", r5),
     ("C10.R6", "T8-namesake", "conversions fill value/flags/time from the like-named source", r6),
+    ("C10.R7", "T8", "the wire flag octet of stateful points carries the value in its state bit(s) on every path", r7),
 ]
